@@ -294,7 +294,7 @@ func gen(seed uint64, tier string, idx int) sim.CaseI {
 	c.Procs = []int{1, 2, 4, 32}[kr.Intn(4)]
 	c.Shuffle = kr.Bool(0.5)
 	c.FSPark = []float64{0, 0, 0.05, 0.3}[kr.Intn(4)]
-	c.Sched = sim.SchedConfig{Seed: sim.Mix(seed, 3), YieldPark: []float64{0, 0.05, 0.3, 1}[kr.Intn(4)]}
+	c.Sched = sim.SchedConfig{Seed: sim.Mix(seed, 3), YieldPark: []float64{0, 0.05, 0.3, 1}[kr.Intn(4)], YieldSites: []string{"modpkgload."}}
 	switch kr.Intn(10) {
 	case 0:
 		c.Sched.Policy = "sequential"
